@@ -23,9 +23,10 @@ if [ -n "$VER" ]; then
 fi
 # 2. fall back to the newest libccp-* directory in the registry (version sort)
 if [ -z "$L" ]; then
-    for d in $(ls -d "$REG"/*/libccp-*/libccp 2>/dev/null | sort -t- -k2 -V); do
-        [ -f "$d/ccp.c" ] && L=$d
-    done
+    L=$(for d in "$REG"/*/libccp-*/libccp; do
+            [ -f "$d/ccp.c" ] || continue
+            v=$(basename "$(dirname "$d")"); echo "${v#libccp-} $d"
+        done | sort -V -k1,1 | tail -n 1 | cut -d' ' -f2-)
 fi
 if [ -z "$L" ]; then
     echo "build.sh: no libccp sources found under $REG (wanted version: ${VER:-any})" >&2
